@@ -123,12 +123,8 @@ func newSidecarRig(dir string, head int64, clock *int64, base time.Time) (*sidec
 	if err := r.cfg.ReloadFromRaw([]byte(sidecarCfg)); err != nil {
 		return nil, err
 	}
-	for _, j := range []string{"job0", "job1"} {
-		ji := r.sm.GetJob(j)
-		if ji == nil {
-			return nil, fmt.Errorf("job %s missing", j)
-		}
-		ji.Cli = &http.Client{Transport: &scriptedRT{f: func(req *http.Request) (*http.Response, error) { return r.payload(req) }}}
+	if err := r.installTransports(); err != nil {
+		return nil, err
 	}
 	r.proxy = sidecar.NewProxy(r.sm.GetJob, func() map[uint64]*target.ScrapeStatus { return r.tm.TargetsInfo().Status },
 		r.cfg.ConfigInfo, reg, lg)
@@ -137,6 +133,19 @@ func newSidecarRig(dir string, head int64, clock *int64, base time.Time) (*sidec
 		return nil, err
 	}
 	return r, nil
+}
+
+// installTransports gives the job objects of the scrape manager the scripted target transport; a
+// configuration reload builds new job objects, so it has to be repeated after one
+func (r *sidecarRig) installTransports() error {
+	for _, j := range []string{"job0", "job1"} {
+		ji := r.sm.GetJob(j)
+		if ji == nil {
+			return fmt.Errorf("job %s missing", j)
+		}
+		ji.Cli = &http.Client{Transport: &scriptedRT{f: func(req *http.Request) (*http.Response, error) { return r.payload(req) }}}
+	}
+	return nil
 }
 
 func (r *sidecarRig) get(path string, out interface{}) error {
